@@ -10,6 +10,19 @@ GUARD = 'KOPF_VERIF_TRACE'
 
 # property id -> (technique, level text, level note, design ref)
 CHECKS: dict[str, dict[str, str]] = {
+    'C01': dict(
+        technique='explicit TLA+ model of the multiplexer (Queueing.tla) checked exhaustively with TLC incl. liveness; traces of the '
+                  'real watcher/worker/scheduler (q.* hooks) recorded under a virtual clock and validated by TLC against the spec '
+                  '(Trace_Queueing.tla, with time urgency)',
+        text='TLC visits every interleaving of arrivals, scheduler starts, idle-timeout expiries (enabled whether or not the backlog '
+             'was just filled), processing ends and watcher cancellation for 2-3 objects x 2-3 events under worker limits '
+             '{unlimited, 1, 2}; the negative configuration shows the invariants detect the lost event. The real operator is then run '
+             'in the world simulator on crafted and seeded-random timed scenarios that force exactly those schedules (an arrival at '
+             'the very instant of the idle deadline, before its timer runs), and every recorded trace must be explained by the '
+             'specification with all invariants true and with no urgent operator step pending when virtual time advances.',
+        note='event identity is (uid, resourceVersion) renamed to per-object ordinals by the server log; scenarios do not re-list; '
+             'after watcher cancellation events still queued may be dropped once exit_timeout passes (allowed by the statement)',
+        ref='DESIGN.md 4/C01'),
     'C05': dict(
         technique='TLA+ reference classifier (Causes.tla) model-checked exhaustively with TLC; every input combination '
                   'materialised as a real body and run through the real _detect_causes/process_changing_cause, records judged by TLC',
@@ -64,7 +77,9 @@ def build() -> dict:
     }
 
 
-HOOK_COMMITS: list[str] = []
+import subprocess as _sp
+HOOK_COMMITS: list[str] = _sp.run(['git', '-C', '/repo', 'log', '--reverse', '--format=%h', '--grep=^verif hooks'],
+                                  stdout=_sp.PIPE, text=True).stdout.split()
 NOT_APPLICABLE: dict[str, str] = {}
 
 if __name__ == '__main__':
